@@ -160,7 +160,7 @@ inline void check_encode(double x, int trailing, unsigned prec, int ind, char se
   int extra_digits = std::max(0, P.deg_int_width - 15);
   if (!std::isfinite(v) || rd::cmp(derr, rd::Q::from_double((4 + extra_digits) * du)) > 0)
     k.viol("law:C10/encode-decode/value", cls, det().f("decoded", v).str("text_value", sD.str()));
-  else k.obs("Decode(Encode(x)) - exact text value [ulp]", derr.to_double() / du, det());
+  else k.obs(extra_digits ? "Decode(Encode(x)) - exact text value [ulp], more than 15 integer digits (one rounding per digit)" : "Decode(Encode(x)) - exact text value [ulp], up to 15 integer digits", derr.to_double() / du, det());
   if (std::signbit(v) != P.neg) k.viol("law:C10/encode-decode/sign", cls, det().f("decoded", v));
 }
 
